@@ -282,11 +282,17 @@ def decl_source(d, doc=False, derive_debug_enums=True, vis=None):
         args.append("debug")
     if d.get("args_rev"):
         args = args[:1] + args[1:][::-1]          # the options after the base type may come in any order
-    if doc:
+    # the type's doc comment may stand above #[bitfield], directly below it, or below another (inert) attribute
+    docpos = d.get("docpos", d.get("id", 0) % 3) if doc else -1
+    if docpos == 0:
         out.append("/// the bitfield")
     out.append("#[bitbybit::bitfield(%s%s)]" % (", ".join(args), "," if d.get("args_trailing") else ""))
+    if docpos == 1:
+        out.append("/// the bitfield (documented below the macro attribute)")
     for extra in d.get("struct_attrs", []):
         out.append(extra)
+    if docpos == 2:
+        out.extend(["#[allow(dead_code)]", "/// the bitfield (documented below another attribute)"])
     out.append("%sstruct %s {" % (vis, d["name"]))
     for k, f in enumerate(d["fields"]):
         # a doc comment may legally stand before or after the bit attribute: alternate
